@@ -37,6 +37,8 @@ func H_C11_persistent() {
 		vReach("C11.persistent.quiescent")
 		vAssert("C12.fidelity", !finished || (seenData == d && seenID == "id-1"))
 		vAssert("C11.processed-unless-dequeue-fault", !ok || finished || fDeq)
+		// whatever the adapter refused (an acknowledgement in particular), the concurrency slot is given back
+		vAssert("C11.slot-returned-after-faults", w.NumProcessing() == 0)
 	})
 }
 
